@@ -33,6 +33,8 @@ code=$(awk -v w="$W" -v n="$n" '$1==w && $2==n {{print $3}}' {plan})
 echo "out-$n"
 echo "err-$n" 1>&2
 echo "E $W ${{code:-0}}" >> {log}
+# plan code 9: the step's own process dies by a signal (no exit status at all)
+if [ "${{code:-0}}" = "9" ]; then kill -9 $$; fi
 exit ${{code:-0}}
 '''
 
@@ -96,7 +98,7 @@ def one_study(ctx, k):
     lines = []
     for key in insts:
         for a in range(1, attempts + 1):
-            code = rng.choice([0, 0, 0, 1, 2]) if rng.random() < 0.45 else 0
+            code = rng.choice([0, 0, 0, 1, 2, 9]) if rng.random() < 0.45 else 0
             plan_map[(key, a)] = code
             lines.append("%s %d %d" % (os.path.join(out, rel[key]), a, code))
     os.makedirs(out, exist_ok=True)
